@@ -354,7 +354,8 @@ def pseudo_setup(eng):
     eng.spec_env['SITE'], eng.spec_env['BARCODE'] = site, bc
     eng.loader.call_hooks[Q + 'get_rt_reactions'] = lambda e, f, a, k, n: {}
     eng.loader.call_hooks[Q + 'get_barcode_sequences'] = lambda e, f, a, k, n: [bc]
-    eng.loader.call_hooks[Q + 'get_cut_site'] = lambda e, f, a, k, n: ('chr1', site, False)
+    eng.loader.call_hooks[Q + 'get_cut_site'] = lambda e, f, a, k, n: (
+        ('chr1', site, False) if e.spec_env.get('HAS_SITE', True) else None)
 
 
 def pseudo_self(with_umi):
@@ -371,6 +372,11 @@ def pseudo_self(with_umi):
 
 def pseudo_reads(eng, name):
     return [stubs.make_read(eng, 'pseudo%d' % i, tags={}, closed=True) for i in range(2)]
+
+
+def pseudo_setup_nosite(eng):
+    pseudo_setup(eng)
+    eng.spec_env['HAS_SITE'] = False
 
 
 pseudo_tags = Contract(
@@ -391,3 +397,202 @@ pseudo_tags = Contract(
                  'allele resolver on the molecule; two pseudo-reads (the loop treats each record independently)'],
 )
 UNITS.append(pseudo_tags)
+
+# a molecule without a cut site (plain fragments: get_cut_site() gives None) still gets its pseudo-reads tagged
+import copy as _copy      # noqa: E402
+pseudo_tags_nosite = _copy.copy(pseudo_tags)
+pseudo_tags_nosite.name = 'Molecule.write_tags_to_psuedoreads[molecule without a cut site]'
+pseudo_tags_nosite.setup = pseudo_setup_nosite
+pseudo_tags_nosite.ensures = dict(pseudo_tags.ensures)
+pseudo_tags_nosite.ensures['sample_and_site'] = 'all(r.get_tag("SM") == self.sample and not r.has_tag("DS") for r in reads)'
+UNITS.append(pseudo_tags_nosite)
+
+
+# ------------------------------------------------------------------------------ get_dedup_reads: what each pseudo-read is built
+# from (bounded: <= 3 covered blocks).  "whose MD tag matches the reference": the reference string handed to create_MD_tag
+# must be the reference bases of the aligned (M) blocks of the part, in order - skipped (N) stretches are not part of MD -
+# and must pair base by base with the consensus sequence of the part.
+def dedup_setup(n_blocks):
+    inner = partial_setup(n_blocks)
+
+    def setup(eng):
+        from pyvc import externals
+        inner(eng)
+        REF = named(STR, 'contig_sequence')
+        eng.spec_env['REF'] = REF
+        eng.ghost['reads'] = []
+
+        def fetch(e, o, chrom, start, end):
+            return e.eval_slice(REF, start, end) if hasattr(e, 'eval_slice') else Sym(
+                z3.SubString(REF.z, start.z if isinstance(start, Sym) else z3.IntVal(start),
+                             (end.z if isinstance(end, Sym) else z3.IntVal(end)) - (start.z if isinstance(start, Sym) else z3.IntVal(start))), STR)
+        stubs.STUBS['Fasta'] = {'methods': {'fetch': fetch}, 'props': {}, 'setters': {}}
+
+        def md(e, f, args, kwargs, node):
+            return Obj('MDArgs', {'ref': args[0], 'query': args[1]})
+        eng.loader.call_hooks['singlecellmultiomics.utils.sequtils.create_MD_tag'] = md
+
+        def consensus_read(e, f, args, kwargs, node):
+            o = Obj('PseudoRead', dict(kwargs))
+            e.ghost['reads'].append(o)
+            return o
+        eng.loader.call_hooks[Q + 'get_consensus_read'] = consensus_read
+        externals.EXTRA['numpy.concatenate'] = lambda e, a, k, n: Obj('Phreds', {'parts': a[0]})
+        externals.EXTRA['array.array'] = lambda e, a, k, n: a[1]
+    return setup
+
+
+def dedup_self(eng, name):
+    fa = Obj('Fasta', {})
+    fa.vc_immutable = True
+    return Obj('Molecule', {'chromosome': 'chr1', 'reference': fa, 'strand': named(BOOL, 'strand')},
+               info=eng.loader.classref(FM, 'Molecule'))
+
+
+def dedup_pre(n_blocks):
+    base = _partial_pre(n_blocks)
+
+    def pre(eng, fr):
+        base(eng, fr)
+        start = eng.spec_env['START']
+        end = eng.spec_env['BLOCK_SPANS'][-1][1]
+        eng.assume(z3.And(start.z >= 0, z3.Length(eng.spec_env['REF'].z) >= (end.z if isinstance(end, Sym) else end)))
+    return pre
+
+
+def dedup_unit(n_blocks):
+    u = Contract(
+        PROP, FM + '::Molecule.get_dedup_reads', name='Molecule.get_dedup_reads[%d covered blocks]' % n_blocks,
+        params={'self': dedup_self, 'read_name': ('const', 'pseudo'), 'target_bam': 'none', 'obs': ('const', {}), 'max_N_span': 'int'},
+        cases=[{}, {'max_N_span': 'none'}],
+        setup=dedup_setup(n_blocks),
+        ensures={
+            'one_record_per_part': 'len(Y) == 1 + sum([(1 if (max_N_span is not None and op[1] > max_N_span) else 0) for op in CIGAR if op[0] == "N"])',
+            # MD pairs the consensus bases with the reference bases of the aligned blocks only
+            'md_reference_pairs_base_by_base_with_the_consensus':
+                'all(len(r.mdstring.ref) == len(r.mdstring.query) and r.mdstring.query == r.consensus for r in Y)',
+            'md_reference_is_the_reference_of_the_aligned_blocks':
+                '"".join([r.mdstring.ref for r in Y]) == "".join([REF[s:e] for s, e in BLOCK_SPANS])',
+            'record_starts_at_its_first_aligned_block_and_keeps_the_strand':
+                'all(r.is_reverse == self.strand for r in Y) and Y[0].start == START',
+        },
+        raises={},
+        bounded='%d covered blocks (symbolic lengths, gaps and max_N_span, symbolic contig sequence)' % n_blocks,
+        assumptions=['get_CIGAR / extract_stretch_from_dict through their contracts; get_consensus_read and create_MD_tag '
+                     'recorded with their arguments (create_MD_tag has its own exhaustive unit); reference.fetch = substring'],
+    )
+    u.pre_state = dedup_pre(n_blocks)
+    return u
+
+
+UNITS += [dedup_unit(n) for n in (1, 2, 3)]
+
+
+def dedup_replay(inputs, clause):
+    """a real Molecule of real pysam records covering the blocks of the counter-model (one read per covered block, at
+    START + 100), consensus requested through Molecule.deduplicate_majority; the MD tag of each pseudo-read is compared
+    with create_MD_tag over the reference bases of its aligned (M) blocks"""
+    import random
+    import pysam
+    from pyvc.contract import import_real
+    Fragment = import_real('singlecellmultiomics/fragment/fragment.py', 'Fragment')
+    Mol = import_real(FM, 'Molecule')
+    md_of = import_real(FS, 'create_MD_tag')
+    g = inputs.get('ghost', {})
+    cigar = [(op, max(1, min(int(n), 40))) for op, n in g['CIGAR']]
+    mns = inputs.get('max_N_span')
+    rng = random.Random(7)
+    off = 100
+    total = off + sum(n for _, n in cigar) + 50
+    ref = ''.join(rng.choice('ACGT') for _ in range(total))
+
+    class Ref:
+        def fetch(self, contig, start=None, end=None):
+            return ref[start:end]
+    header = pysam.AlignmentHeader.from_dict({'HD': {'VN': '1.6'}, 'SQ': [{'SN': 'chr1', 'LN': total}]})
+    frags, pos, blocks = [], off, []
+    for i, (op, n) in enumerate(cigar):
+        if op == 'M':
+            q = list(ref[pos:pos + n])
+            if n >= 3:
+                q[1] = 'A' if q[1] != 'A' else 'C'        # a mismatch so that MD is not just a number
+            s = pysam.AlignedSegment(header)
+            s.query_name = 'q%d' % i
+            s.reference_id, s.reference_start = 0, pos
+            s.query_sequence = ''.join(q)
+            s.query_qualities = pysam.qualitystring_to_array('I' * n)
+            s.cigartuples = [(0, n)]
+            s.mapping_quality = 60
+            s.flag = 0
+            for t, v in (('SM', 'cell'), ('RX', 'ACG'), ('MX', 'x'), ('DS', off), ('BC', 'AAAA')):
+                s.set_tag(t, v)
+            frags.append(Fragment([s, None]))
+            blocks.append((pos, pos + n))
+        pos += n
+    m = Mol(frags[0], reference=Ref())
+    for f in frags[1:]:
+        m._add_fragment(f)
+    m.chromosome = 'chr1'
+    m.get_cut_site = lambda: ('chr1', off, False)
+    out = pysam.AlignmentFile(B_scratch_bam(), 'wb', header=header)
+    try:
+        reads = [r for r in m.deduplicate_majority(out, 'pseudo', max_N_span=mns) if r is not None]
+    finally:
+        out.close()
+    failed, seen = [], []
+    for r in reads:
+        exp_ref = ''.join(ref[a:b] for a, b in r.get_blocks())
+        want = md_of(exp_ref, r.query_sequence)
+        seen.append({'start': r.reference_start, 'cigar': r.cigarstring, 'MD': r.get_tag('MD'), 'MD_expected': want})
+        if r.get_tag('MD') != want:
+            failed.append({'clause': 'md_reference_is_the_reference_of_the_aligned_blocks', 'cigar': r.cigarstring,
+                           'MD': r.get_tag('MD'), 'expected': want})
+    cov = sorted(b for r in reads for b in r.get_blocks())
+    if cov != blocks:
+        failed.append({'clause': 'aligned blocks', 'got': cov, 'expected': blocks})
+    obs = {'outcome': 'return', 'value': seen}
+    return {'status': 'confirmed' if failed else 'not-reproduced', 'observed': obs, 'failed': failed}
+
+
+def B_scratch_bam():
+    import os
+    d = os.path.join(os.path.dirname(os.path.dirname(os.path.abspath(__file__))), '.scratch')
+    os.makedirs(d, exist_ok=True)
+    return os.path.join(d, 'c15_replay_%d.bam' % os.getpid())
+
+
+for _u in UNITS[-3:]:
+    _u.replay = dedup_replay
+
+
+def pseudo_nosite_replay(inputs, clause):
+    """real plain Molecule of a plain Fragment (no DS tag, no restriction site): tag a pseudo-read"""
+    import pysam
+    from pyvc.contract import import_real
+    Fragment = import_real('singlecellmultiomics/fragment/fragment.py', 'Fragment')
+    Mol = import_real(FM, 'Molecule')
+    header = pysam.AlignmentHeader.from_dict({'HD': {'VN': '1.6'}, 'SQ': [{'SN': 'chr1', 'LN': 1000}]})
+
+    def seg(name):
+        s = pysam.AlignedSegment(header)
+        s.query_name, s.reference_id, s.reference_start = name, 0, 100
+        s.query_sequence, s.cigartuples, s.mapping_quality, s.flag = 'ACGTACGTAC', [(0, 10)], 60, 0
+        s.query_qualities = pysam.qualitystring_to_array('I' * 10)
+        for t, v in (('SM', 'cell'), ('RX', 'ACG'), ('MX', 'x'), ('BC', 'AAAA')):
+            s.set_tag(t, v)
+        return s
+    m = Mol(Fragment([seg('q'), None]))
+    pseudo = seg('pseudo')
+    pseudo.set_tag('SM', None)
+    try:
+        m.write_tags_to_psuedoreads([pseudo])
+    except Exception as e:     # noqa
+        return {'status': 'confirmed', 'observed': {'outcome': 'raise', 'value': [type(e).__name__, str(e)]},
+                'failed': [{'clause': 'raises.only', 'exception': type(e).__name__}]}
+    tags = dict(pseudo.get_tags())
+    ok = tags.get('SM') == 'cell' and 'DS' not in tags and tags.get('TF') == 1
+    return {'status': 'not-reproduced' if ok else 'confirmed', 'observed': {'outcome': 'return', 'value': {k: str(v) for k, v in tags.items()}},
+            'failed': [] if ok else [{'clause': 'sample_and_site / fragment_count'}]}
+
+
+pseudo_tags_nosite.replay = pseudo_nosite_replay
